@@ -19,7 +19,8 @@ from lib.harness import Check, Outcome
 
 PROPERTY = "C01"
 RULE = (
-    "Hypothesis-generated program specs (1-3 methods of kind unary/producer/exchange with optional header, logs at any "
+    "Hypothesis-generated program specs (1-3 methods of kind unary/producer/exchange with optional header, optionally declared with a union of two "
+    "inheritance-related state classes (the derived one is returned; the base member's body must never run), logs at any "
     "level, emit/finish/raise scripts, app metadata, zero-column outputs) plus a call script (≤5 calls; early close/"
     "cancel points) run over pipe, unix, tcp, shm-pipe and HTTP × max_response_bytes ∈ {None, tiny, large} × "
     "compression ∈ {off, zstd, gzip}. Non-trivial = program has a stream method and at least one of {log, error, "
@@ -145,7 +146,7 @@ def _producer_tail_cases() -> Any:
 
     @st.composite
     def build(draw: st.DrawFn) -> dict[str, Any]:
-        spec = draw(programs.program_specs(kinds=("producer",), max_methods=2, max_calls=3, min_steps=1, early_exit=False))
+        spec = draw(programs.program_specs(kinds=("producer",), max_methods=2, max_calls=3, min_steps=1, early_exit=False, unions=True))
         m = spec["methods"][0]
         m["init"]["action"] = {"op": "ok"}
         k = draw(st.integers(1, 4))
@@ -177,7 +178,7 @@ def main(chk: Check) -> None:
 
     strat = st.fixed_dictionaries(
         {
-            "spec": programs.program_specs(),
+            "spec": programs.program_specs(unions=True),
             "http_idx": st.lists(st.integers(0, len(HTTP_CFGS) - 1), min_size=3, max_size=3, unique=True)
             if chk.quick
             else st.just(list(range(len(HTTP_CFGS)))),
@@ -187,6 +188,6 @@ def main(chk: Check) -> None:
     chk.explore("producer_tail", _producer_tail_cases(), run_case, quick=120, thorough=1600)
     # a real worker process (python startup ≈ 0.5 s per program): a few in quick, more in thorough
     sub = st.fixed_dictionaries(
-        {"spec": programs.program_specs(), "http_idx": st.just([0]), "subprocess": st.just(True)}
+        {"spec": programs.program_specs(unions=True), "http_idx": st.just([0]), "subprocess": st.just(True)}
     )
     chk.explore("subprocess", sub, run_case, quick=12, thorough=320)
